@@ -564,7 +564,7 @@ fn minimise_hang(rf: &mut ReplayFile, tmp: &str) {
 /// unprivileged process (C18). The failing operation must be the last one.
 fn minimise_children(rf: &mut ReplayFile, tmp: &str, max_candidates: usize) {
     let mut budget = max_candidates;
-    let mut still_hangs = |cand: &ReplayFile, budget: &mut usize| -> bool {
+    let still_hangs = |cand: &ReplayFile, budget: &mut usize| -> bool {
         if *budget == 0 {
             return false;
         }
